@@ -24,8 +24,8 @@ pub fn prop() -> Prop {
         id: "C08",
         level: "fault_enumeration",
         runs: |t| match t {
-            Tier::Quick => 260,
-            Tier::Thorough => 3000,
+            Tier::Quick => 1000,
+            Tier::Thorough => 9000,
         },
         generate,
         exec,
